@@ -264,6 +264,11 @@ def run(shard, ctx):
                         if rng.random() < 0.35:
                             meter = rng.choice(METERS)
                         bars.append(random_bar(rng, values, key, meter))
+                    if len(bars) >= 2 and rng.random() < 0.25:
+                        i0 = rng.randrange(len(bars) - 1)
+                        twin = dict(bars[i0])
+                        twin["reuse_of"] = i0
+                        bars.append(twin)           # the same Bar object again, after bars in other keys / meters
                     r = rng.random()
                     ins = None
                     if r < 0.3:
